@@ -858,6 +858,12 @@ fn gen_case(rng: &mut Rng, cycle: &mut usize) -> Case {
         for _ in 0..rng.below(4).saturating_sub(1) {
             shape.push(if rng.chance(0.05) { 0 } else { rng.range(1, 3) });
         }
+        if rng.chance(0.05) {
+            // many (short) trailing axes: with a query of 5..6 axes the result has 13 and more axes (dynamic dimensions only)
+            for _ in 0..(6 + rng.below(3)) {
+                shape.push(if rng.chance(0.3) { 2 } else { 1 });
+            }
+        }
     }
     let total: usize = shape.iter().product();
     let values: Vec<f64> = (0..total).map(|_| gen_value(rng)).collect();
@@ -899,6 +905,9 @@ fn gen_case(rng: &mut Rng, cycle: &mut usize) -> Case {
     let qshape: Vec<usize> = match entry {
         Entry::Scalar | Entry::Interp | Entry::InterpInto => Vec::new(),
         Entry::ArrayIx1 | Entry::ArrayIntoIx1 => vec![rng.range(0, 5)],
+        Entry::Array | Entry::ArrayInto if shape.len() >= 8 => (0..(5 + rng.below(2)))
+            .map(|_| if rng.chance(0.3) { 2 } else { 1 })
+            .collect(),
         Entry::Array | Entry::ArrayInto => (0..rng.below(4))
             .map(|_| if rng.chance(0.08) { 0 } else { rng.range(1, 3) })
             .collect(),
